@@ -295,7 +295,7 @@ def run(ctx):
         pcol = ctx.build / "cases_collapse.v"
         pcol.write_text("\n".join(lines) + "\n")
         t1 = time.time()
-        res = ctx.coqc_many(files + [pcol], jobs=16, timeout=1500)
+        res = B.coqc_many_retry(ctx, files + [pcol], jobs=16, timeout=1500)
         rc, out = res.pop(pcol)
         vals = B_parse(out) if rc == 0 else []
         ok_col = rc == 0 and len(vals) == 2
